@@ -350,6 +350,41 @@ def opMetric (j : Json) : Except String Json := do
     Json.arr #[jint (Path.periodic2 S a b), jint (Path.euclid2 a b)]
   pure (Json.mkObj [("d2", Json.arr res.toArray)])
 
+
+/-! ### C13: dual and truncation (exact) -/
+
+def opDual (j : Json) : Except String Json := do
+  let L ← parseLat j
+  if !L.noSelfLoop then throw "precondition:self-loop"
+  let R := rotOfTable (rotTable L)
+  if anyStuck L R then throw "stuck"
+  let pl := plaquettes L R
+  let ps := pl.map (·.darts)
+  -- centre of plaquette p = cnum / (3·area2) in scaled units; as a fraction of a cell: cnum / (3·area2·scale)
+  let cen := pl.map fun p => (p.cnum, 3 * p.area2 * L.scale)
+  let de := Dual.dualEdges L.E ps
+  let rows := de.map fun eab =>
+    let (ca, Da) := cen.getD eab.2.1 ((0, 0), 1)
+    let (cb, Db) := cen.getD eab.2.2 ((0, 0), 1)
+    let D := Da * Db
+    let ax := ca.1 * Db; let ay := ca.2 * Db; let bx := cb.1 * Da; let bY := cb.2 * Da
+    let cx := Dual.dualCross1 ax bx D; let cy := Dual.dualCross1 ay bY D
+    -- distance of the rounding argument from a half-integer, relative: tight when |2|a%D − b%D| − D| < D / 10^9
+    let m1 := (2 * (ax % D - bx % D).natAbs : Int) - D; let m2 := (2 * (ay % D - bY % D).natAbs : Int) - D
+    -- a centre coordinate within 1e-9 of the cell wall is non-generic too (`% 1` jumps there)
+    let wall := fun (x : Int) => (x % D) * 1000000000 < D || (D - x % D) * 1000000000 < D
+    let tight := m1.natAbs * 1000000000 < D.natAbs || m2.natAbs * 1000000000 < D.natAbs || wall ax || wall ay || wall bx || wall bY
+    Json.mkObj [("e", jnat eab.1), ("a", jnat eab.2.1), ("b", jnat eab.2.2), ("c", jpairI (cx, cy)), ("tight", Json.bool tight)]
+  let verts := cen.map fun cd => Json.arr #[jint (cd.1.1 % cd.2), jint (cd.1.2 % cd.2), jint cd.2]
+  pure (Json.mkObj [("edges", Json.arr rows.toArray), ("verts", Json.arr verts.toArray)])
+
+def opTruncate (j : Json) : Except String Json := do
+  let L ← parseLat j
+  if !L.noSelfLoop then throw "precondition:self-loop"
+  let chosen ← nats (← field j "chosen")
+  let T := Dual.truncate L fun n => chosen.contains n
+  pure (Json.mkObj (jlat T ++ [("scale", jint T.scale)]))
+
 def dispatch (op : String) (j : Json) : Except String Json :=
   match op with
   | "plaquettes" => opPlaquettes j
@@ -366,6 +401,8 @@ def dispatch (op : String) (j : Json) : Except String Json :=
   | "marker" => opMarker j
   | "bluenoise" => opBluenoise j
   | "astar" => opAstar j
+  | "dual" => opDual j
+  | "truncate" => opTruncate j
   | "metric" => opMetric j
   | "lateq" => opLatEq j
   | _ => throw "bad-op"
